@@ -17,9 +17,10 @@ import (
 // contract, an inner iterator whose Next fails).
 //   M <id> <fwd|rev> <dirty list> <snapshot list> <faild> <fails> => <yielded list>[|err]
 type failIter struct {
-	l    []KV
-	i    int
-	fail int
+	l     []KV
+	i     int
+	fail  int
+	fired bool
 }
 
 func (it *failIter) Valid() bool   { return it.i < len(it.l) }
@@ -29,6 +30,7 @@ func (it *failIter) Close()        {}
 func (it *failIter) Next() error {
 	it.i++
 	if it.fail > 0 && it.i == it.fail {
+		it.fired = true
 		return errors.New("scripted iterator failure")
 	}
 	return nil
@@ -56,8 +58,9 @@ func execMerge(id int, p *Program, emit func(string)) *failure {
 	d, s := kvList(p.D), kvList(p.S)
 	var out []KV
 	errored := false
+	dIt, sIt := &failIter{l: d, fail: p.FailD}, &failIter{l: s, fail: p.FailS}
 	pan := protect(func() {
-		it, err := unionstore.NewUnionIter(&failIter{l: d, fail: p.FailD}, &failIter{l: s, fail: p.FailS}, p.Rev)
+		it, err := unionstore.NewUnionIter(dIt, sIt, p.Rev)
 		if err != nil {
 			errored = true
 			return
@@ -119,7 +122,8 @@ func execMerge(id int, p *Program, emit func(string)) *failure {
 			ok = ok && !errored && kvsString(want) == kvsString(out)
 		} else {
 			ok = ok && len(out) <= len(want) && (len(out) == 0 || kvsString(want[:len(out)]) == kvsString(out)) &&
-				(errored || kvsString(want) == kvsString(out))
+				(errored || kvsString(want) == kvsString(out)) &&
+				errored == (dIt.fired || sIt.fired) // an inner error is reported, and only then
 		}
 		if !oracle("union-iter=overlay-merge", ok) {
 			return &failure{"union-iter=overlay-merge", 0, res + " want " + kvsString(want)}
